@@ -1,5 +1,6 @@
 import GoPlugin.Props.C08
 import GoPlugin.Generated.Facts
+import GoPlugin.Props.Hygiene
 /- C08 at the facts extracted from the current source. -/
 namespace GoPlugin.Instance.C08
 open GoPlugin GrpcMux Props.C08
@@ -20,5 +21,8 @@ theorem holds_reaccept_usable (earlierClosed : Bool) : GrpcMux.reacceptUsable Fa
 theorem holds_every_transport_announced (id transports : Nat) :
     ∀ t ∈ GrpcMux.transportTags Facts.grpcMuxDialer id transports, t = GrpcMux.Tag.brokered id :=
   Props.C08.every_transport_announced _ (by decide) id transports
+
+theorem holds_door_open_at_arrival (doorDelayMs arriveAfterAckMs : Nat) : Hygiene.doorOpenAtArrival Facts.hygiene doorDelayMs arriveAfterAckMs = true :=
+  Props.Hygiene.door_open_at_arrival _ (by decide) doorDelayMs arriveAfterAckMs
 
 end GoPlugin.Instance.C08
